@@ -136,27 +136,39 @@ theorem set_keeps_tolerance (self : Angle) (x d m s : ℚ) :
     (∃ a, angle_set self (.args [d, m, s]) = .ok a ∧ a.tol = self.tol ∧ a.deg = dms2deg d m s) :=
   ⟨⟨_, rfl, rfl⟩, ⟨_, rfl, rfl, rfl⟩⟩
 
-/-- "hours of right ascension": the stored value is 15 times the value of the same arguments read
-    as degrees; for |hours| < 24 it is strictly inside (-360, 360).
-    PARTIAL: the clause "strictly inside (-360, 360)" is false for |hours| ≥ 24 (see
-    `ctor_ra_counterexample`): `set_ra` multiplies by 15 after the reduction and does not reduce again. -/
-theorem ctor_ra_partial (h : ℚ) :
-    angle_new_ra (.num h) = .ok ⟨reduce_deg h * 15, TOL⟩ ∧
-    (∃ k : ℤ, 15 * h = reduce_deg h * 15 + 360 * k) ∧
-    (|h| < 24 → reduce_deg h * 15 = 15 * h ∧ |reduce_deg h * 15| < 360) := by
-  refine ⟨?_, ?_, fun hh => ?_⟩
-  · unfold angle_new_ra angle_set_ra angle_set; norm_num
-  · obtain ⟨_, ⟨k, hk⟩, _⟩ := reduce_deg_spec h
-    exact ⟨15 * k, by push_cast; linarith⟩
-  · have h360 : |h| < 360 := by linarith
-    rw [reduce_deg_of_lt h360]
-    refine ⟨by ring, ?_⟩
+/-- "hours of right ascension": for every argument shape, `Angle(..., ra=True)` / `set_ra(...)` store
+    `reduce_deg (15 * v)` where `v` is the value the same arguments give as degrees: strictly inside
+    (-360, 360) and congruent modulo 360 to 15 times that value (and errors are the same errors). -/
+theorem ctor_ra (s : Shape) :
+    (∀ a, angle_new s = .ok a → ∃ b : Angle, angle_new_ra s = .ok b ∧ b.deg = reduce_deg (a.deg * 15) ∧
+      b.tol = a.tol ∧ |b.deg| < 360 ∧ ∃ k : ℤ, 15 * a.deg = b.deg + 360 * k) ∧
+    (∀ e, angle_new s = .error e → angle_new_ra s = .error e) := by
+  unfold angle_new_ra angle_set_ra angle_new
+  constructor
+  · intro a h
+    rw [h]
+    refine ⟨_, rfl, by norm_num, rfl, (reduce_deg_spec _).1, ?_⟩
+    obtain ⟨k, hk⟩ := (reduce_deg_spec (a.deg * 15.0)).2.1
+    exact ⟨k, by rw [← hk]; norm_num; ring⟩
+  · intro e h
+    rw [h]
+
+/-- Hours given as a number: `Angle(h, ra=True)` is `reduce_deg (15 * reduce_deg h)`, congruent to `15 h`;
+    for |h| < 24 it is exactly `15 h`. -/
+theorem ctor_ra_number (h : ℚ) :
+    ∃ b : Angle, angle_new_ra (.num h) = .ok b ∧ |b.deg| < 360 ∧ (∃ k : ℤ, 15 * h = b.deg + 360 * k) ∧
+      (|h| < 24 → b.deg = 15 * h) := by
+  obtain ⟨b, hb, hdeg, _, hr, k, hk⟩ := (ctor_ra (.num h)).1 _ (ctor_number h)
+  obtain ⟨_, ⟨j, hj⟩, _⟩ := reduce_deg_spec h
+  refine ⟨b, hb, hr, ⟨k + 15 * j, ?_⟩, fun hh => ?_⟩
+  · simp only at hk; push_cast; linarith
+  · rw [hdeg]
+    have h360 : |h| < 360 := by linarith
+    simp only [reduce_deg_of_lt h360]
+    rw [reduce_deg_of_lt]; ring
     rw [abs_mul, abs_of_pos (by norm_num : (0 : ℚ) < 15)]; linarith
 
-/-- DEFECT WITNESS: `Angle(24, ra=True)` holds 360, outside (-360, 360). -/
-theorem ctor_ra_counterexample :
-    ∃ a : Angle, angle_new_ra (.num 24) = .ok a ∧ a.deg = 360 ∧ ¬ |a.deg| < 360 := by
-  refine ⟨_, rfl, by decide +kernel, by decide +kernel⟩
+example : ∃ b : Angle, angle_new_ra (.num 25.5) = .ok b ∧ b.deg = 22.5 := ⟨_, rfl, by decide +kernel⟩
 
 /-! ### Operators: result = `Angle(exact result)`, hence in range and congruent -/
 
@@ -254,38 +266,18 @@ theorem mod (a : Angle) (b : Operand) :
   · rw [angle_mod_eq, h, modBody_zero]
   · rw [angle_mod_eq]; exact modBody_ok _ h
 
-/-- Reflected modulo `b % a` as the code computes it: a number `b` is first turned into `Angle(b)`
-    (reduced modulo 360), then `sgn(b') * (|b'| mod a)`; ZeroDivisionError for `a = 0`. -/
-theorem rmod_as_coded (a : Angle) (b : Operand) :
-    let b' : ℚ := match b with | .ang c => c.deg | .int n => reduce_deg n | .flt x => reduce_deg x
+/-- Reflected modulo `b % a` (Angle, int or float `b`): the same sign-symmetric modulo with the operands
+    exchanged, on the number itself: `Angle(sgn(b) * (|b| mod a))`; ZeroDivisionError for `a = 0`. -/
+theorem rmod (a : Angle) (b : Operand) :
     (a.deg = 0 → angle_rmod a b = .error .zeroDivisionError) ∧
     (a.deg ≠ 0 → ∃ r : Angle, angle_rmod a b = .ok r ∧ |r.deg| < 360 ∧
-      ∃ k : ℤ, (if 0 ≤ b' then (1 : ℚ) else -1) * (|b'| - a.deg * ⌊|b'| / a.deg⌋) = r.deg + 360 * k) := by
-  intro b'
+      ∃ k : ℤ, (if 0 ≤ b.val then (1 : ℚ) else -1) * (|b.val| - a.deg * ⌊|b.val| / a.deg⌋) = r.deg + 360 * k) := by
   refine ⟨fun h => ?_, fun h => ?_⟩
   · rw [angle_rmod_eq, h, modBody_zero]
   · rw [angle_rmod_eq]; exact modBody_ok _ h
 
-/-- DEFECT WITNESS for the clause "every reflected operator returns a value congruent modulo 360 to the
-    result of the operation on the operands' values": `725 % Angle(50)` is 5 although 725 mod 50 = 25
-    (the number is reduced modulo 360 first; `725 / Angle(50)` and `725 ** Angle(2)` use 725). -/
-theorem rmod_counterexample :
-    ∃ r : Angle, angle_rmod (mk 50) (.int 725) = .ok r ∧
-      ¬ ∃ k : ℤ, ((725 : ℚ) - 50 * ⌊(725 : ℚ) / 50⌋) = r.deg + 360 * k := by
-  have h50 : (mk 50).deg = 50 := reduce_deg_of_lt (by norm_num)
-  have h725 : reduce_deg ((725 : ℤ) : ℚ) = 5 := by decide +kernel
-  obtain ⟨r, hr, _, k, hk⟩ := (rmod_as_coded (mk 50) (.int 725)).2 (by rw [h50]; norm_num)
-  refine ⟨r, hr, ?_⟩
-  rintro ⟨k', hk'⟩
-  simp only [h725, h50] at hk
-  have f1 : ⌊(725 : ℚ) / 50⌋ = 14 := by rw [Int.floor_eq_iff]; norm_num
-  have f2 : ⌊|(5 : ℚ)| / 50⌋ = 0 := by rw [Int.floor_eq_iff]; norm_num
-  rw [f1] at hk'
-  rw [f2] at hk
-  norm_num at hk hk'
-  have : (20 : ℚ) = 360 * ((k' - k : ℤ) : ℚ) := by push_cast; linarith
-  have : (20 : ℤ) = 360 * (k' - k) := by exact_mod_cast this
-  omega
+example : (match angle_rmod (mk 50) (.int 725) with | .ok r => decide (r.deg = 25) | .error _ => false) = true := by
+  decide +kernel
 
 /-- `**` with an `int` exponent (plain and in-place): `Angle(a ** n)`; `0 ** negative` raises
     ZeroDivisionError. -/
